@@ -56,6 +56,29 @@ ExprOver(x, y, z) ==
   \cup { N("NamedExpr", "", <<x>>) }
   \cup { N("Starred", "call", <<x>>) }
   \cup { N("ConcatStr", "", <<>>) }
+(* parameter lists, composed: positional-only part, ordinary part, star part, keyword-only part, ** part - every legal  *)
+(* combination (a default before a parameter without one is legal only in the keyword-only part)                     *)
+SigPO == {"", "a", "a=1"}
+SigRE == {"", "p", "p=2", "p, q", "p, q=2", "p=1, q=2"}
+SigST == {"none", "bare", "var"}
+SigKO == {"", "k", "k=1", "k, m", "k, m=4", "k=1, m", "k=1, m=4"}
+SigKW == {"", "**kw"}
+Sigs == { s \in [po : SigPO, re : SigRE, st : SigST, ko : SigKO, kw : SigKW] :
+            /\ (s.st = "bare" => s.ko # "") /\ (s.ko # "" => s.st # "none")
+            /\ (s.po = "a=1" => s.re \in {"", "p=2", "p=1, q=2"}) }
+(* displays and argument lists, composed: every sequence of up to three entries of every kind (the harness drops the  *)
+(* sequences Python itself rejects, e.g. a positional argument after a keyword argument)                              *)
+SeqsUpTo(S, n) == UNION { [1..k -> S] : k \in 1..n }
+RECURSIVE Joined(_)
+Joined(sq) == IF Len(sq) = 1 THEN sq[1] ELSE sq[1] \o "," \o Joined(Tail(sq))
+Shape(sq) == "shape:" \o Joined(sq)                     \* variants are strings: "shape:kv,ds,kv"
+SigStr(g) == "sig:" \o g.po \o "|" \o g.re \o "|" \o g.st \o "|" \o g.ko \o "|" \o g.kw
+ShapeExprs ==
+     { N("Dict", Shape(sh), <<A, B, C>>) : sh \in SeqsUpTo({"kv", "ds"}, 3) }
+  \cup { N(k, Shape(sh), <<A, B, C>>) : k \in {"List", "Tuple", "Set"}, sh \in SeqsUpTo({"e", "st"}, 3) }
+  \cup { N("Call", Shape(sh), <<A, B, C>>) : sh \in SeqsUpTo({"p", "st", "kw", "ds"}, 3) }
+  \cup { N("Lambda", SigStr(sg), <<A>>) : sg \in Sigs }
+SigStmts == { N("FunctionDef", SigStr(sg), <<A>>) : sg \in Sigs }
 ConstNodes == { N("Const", v, <<>>) : v \in Consts }
 D1Expr == ExprOver(A, B, C) \cup ConstNodes \cup {A}
 
@@ -101,8 +124,8 @@ D2Stmt == UNION { { N("Assign", "single", <<e>>), N("ExprStmt", "", <<e>>), N("I
 
 Unsupported == {"NamedExpr", "Match", "TypeAlias"}
 
-ExprPrograms == D1Expr \cup D2Expr
-StmtPrograms == D1Stmt \cup D2Stmt
+ExprPrograms == D1Expr \cup D2Expr \cup ShapeExprs
+StmtPrograms == D1Stmt \cup D2Stmt \cup SigStmts
 ASSUME /\ ndJsonSerialize(IOEnv.OUT_EXPR, SetToSeq(ExprPrograms))
        /\ ndJsonSerialize(IOEnv.OUT_STMT, SetToSeq(StmtPrograms))
        /\ PrintT(<<"programs", Cardinality(ExprPrograms), Cardinality(StmtPrograms)>>)
